@@ -38,6 +38,17 @@ def dec_path(s):
     return _esc_seq.sub(lambda m: chr(int(m.group(1)[1:], 16)), s)
 
 
+def bad_escape(s):
+    rest = _esc_seq.sub('', s)
+    if '\\' in rest:
+        return True
+    for m in _esc_seq.finditer(s):
+        v = int(m.group(1)[1:], 16)
+        if v == 0 or v > 0x10ffff or 0xd800 <= v <= 0xdfff:
+            return True
+    return False
+
+
 def digests(content, hashes):
     out = {}
     for h in hashes:
@@ -83,15 +94,24 @@ def parse(text):
         if t == 'TIMESTAMP':
             if len(sl) != 2:
                 raise ValueError(line)
+            import datetime
+            datetime.datetime.strptime(sl[1], '%Y-%m-%dT%H:%M:%SZ')   # ValueError if malformed
             out.append({'tag': t, 'ts': sl[1]})
         elif t == 'IGNORE':
             if len(sl) != 2:
                 raise ValueError(line)
-            out.append({'tag': t, 'path': dec_path(sl[1])})
+            p = dec_path(sl[1])
+            if not p or p.startswith('/') or bad_escape(sl[1]):
+                raise ValueError(line)
+            out.append({'tag': t, 'path': p})
         elif t in FILE_TAGS or t == 'DIST':
             if len(sl) < 3 or (len(sl) - 3) % 2:
                 raise ValueError(line)
+            if not sl[2].isdigit() or not sl[2].isascii():
+                raise ValueError(line)
             p = dec_path(sl[1])
+            if not p or p.startswith('/') or bad_escape(sl[1]) or (t == 'DIST' and '/' in p):
+                raise ValueError(line)
             if t == 'AUX':
                 p = 'files/' + p
             sums = {}
@@ -150,7 +170,15 @@ def decompress(data, comp):
     if comp == 'gz':
         return gzip.decompress(data)
     if comp == 'bz2':
-        return bz2.decompress(data)
-    if comp in ('lzma', 'xz'):
-        return lzma.decompress(data)
-    raise ValueError(comp)
+        d = bz2.BZ2Decompressor()
+    elif comp == 'lzma':
+        d = lzma.LZMADecompressor(format=lzma.FORMAT_ALONE)
+    elif comp == 'xz':
+        d = lzma.LZMADecompressor(format=lzma.FORMAT_XZ)
+    else:
+        raise ValueError(comp)
+    # strict: exactly one complete stream and nothing after it
+    out = d.decompress(data)
+    if not d.eof or d.unused_data:
+        raise ValueError('truncated stream or trailing data')
+    return out
